@@ -240,7 +240,30 @@ pub fn pair_metric(cand_calls: u32, cand_attr_val: i64, track_attr_val: i64, c: 
     Some((attr, fd))
 }
 
+/// results of one (candidate, stored track) pair that survive the metric's post-processing
+pub const POST_KEEP: usize = 5;
+
+/// the post-processing rule of the harness metric, on model tuples: of the results of one track
+/// pair keep the POST_KEEP closest (a rule that is NOT element-wise: applied to anything but one
+/// track pair at a time it gives a different multiset)
+pub fn post_keep(mut v: Vec<(u64, u64, Option<i64>, Option<f32>)>) -> Vec<(u64, u64, Option<i64>, Option<f32>)> {
+    if v.len() > POST_KEEP {
+        v.sort_by(|a, b| (a.3.map(|x| x as f64).unwrap_or(f64::MAX), a.2.unwrap_or(i64::MAX)).partial_cmp(&(b.3.map(|x| x as f64).unwrap_or(f64::MAX), b.2.unwrap_or(i64::MAX))).unwrap());
+        v.truncate(POST_KEEP);
+    }
+    v
+}
+
 impl ObservationMetric<HA, HO> for HM {
+    fn postprocess_distances(&self, unfiltered: Vec<similari::track::ObservationMetricOk<HO>>) -> Vec<similari::track::ObservationMetricOk<HO>> {
+        let mut v = unfiltered;
+        if v.len() > POST_KEEP {
+            v.sort_by(|a, b| (a.feature_distance.map(|x| x as f64).unwrap_or(f64::MAX), a.attribute_metric.unwrap_or(i64::MAX)).partial_cmp(&(b.feature_distance.map(|x| x as f64).unwrap_or(f64::MAX), b.attribute_metric.unwrap_or(i64::MAX))).unwrap());
+            v.truncate(POST_KEEP);
+        }
+        v
+    }
+
     fn metric(&self, mq: &MetricQuery<'_, HA, HO>) -> MetricOutput<i64> {
         let slow = self.ctl.slow_metric_us.load(Ordering::Relaxed);
         if slow > 0 {
